@@ -6,6 +6,7 @@ package main
 import (
 	"bytes"
 	"fmt"
+	edverifier "github.com/storacha/go-ucanto/principal/ed25519/verifier"
 	"io"
 	"math/rand"
 	"net/http"
@@ -45,7 +46,7 @@ var respKinds = []string{
 	"empty-batch", "empty-report", "foreign-report", "normal", "bare-ran", "missing-receipt-block", "missing-invocation-block",
 	"receipt-not-a-receipt", "receipt-empty-out", "receipt-no-issuer", "receipt-bad-issuer", "receipt-empty-sig", "receipt-fx", "report-nil-value",
 	"root-not-message", "no-roots", "two-roots", "garbage", "empty-body", "truncated", "flipped",
-	"receipt-bad-issuer", "receipt-bad-issuer", "text-error", "text-error", "text-error",
+	"receipt-bad-issuer", "receipt-bad-issuer", "text-error", "text-error", "text-error", "receipt-short-sig", "receipt-short-sig",
 }
 
 func genC15(cfg Config, emit Emit) error {
@@ -219,6 +220,13 @@ func respBody(kind string, r *rand.Rand) ([]byte, []ipld.Link) {
 		// what gateways and proxies answer: short texts, JSON, HTML; with and without a final newline
 		bodies := []string{"Not Found", "Not Found\n", "", "\n", "{\"error\":\"bad gateway\"}", "<html><body>502</body></html>", "x", strings.Repeat("a", 2000), "line one\nline two", "\x00\x01\x02", "ünï"}
 		return []byte(bodies[r.Intn(len(bodies))]), lookups
+	case "receipt-short-sig":
+		// a signature that declares more bytes than it carries (or a size that is absurd)
+		s := svc.DID().String()
+		sigs := [][]byte{{0xed, 0xa1, 0x03, 0x40, 1, 2, 3}, {0xed, 0xa1, 0x03, 0x40}, {0xed, 0xa1, 0x03, 0x80, 0x80, 0x80, 0x80, 0x80, 0x20}, {0x85, 0xa4, 0xc0, 0x06, 0x80, 0x02, 9}, {0xed, 0xa1, 0x03, 0x01}}
+		rr := rawReceipt(&s, sigs[r.Intn(len(sigs))], inv.Link())
+		rt := encodeMsgRoot([]ipld.Link{}, reportFor(inv.Link(), rr.Link()))
+		return carOf([]ipld.Link{rt.Link()}, []ipld.Block{rr, rt, inv.Root()}), lookups
 	case "receipt-empty-sig":
 		s := svc.DID().String()
 		rr := rawReceipt(&s, []byte{}, dummyLink(6))
@@ -372,6 +380,12 @@ func execResp(a []string) (res Result) {
 			step = "Receipt.Signature"
 			s := rc.Signature()
 			_, _, _ = s.Code(), s.Size(), s.Raw()
+			step = "Receipt.VerifySignature"
+			if p := rc.Issuer(); p != nil {
+				if v, err := edverifier.Parse(p.DID().String()); err == nil {
+					_ = v.Verify([]byte("anything"), s)
+				}
+			}
 			step = "Receipt.Blocks"
 			for _, err := range rc.Blocks() {
 				if err != nil {
